@@ -182,10 +182,20 @@ def run_case(case, R):
             R.state(("twins", i))
             check_poly(R, sp, f"twin {i} {sp['n']} {sp['t']}", [CONFIGS[0], CONFIGS[9]], seqlen=1)
     elif k == "dtypes":
-        for dt, coefs in (("?", [True, True]), ("f8", [0.5, -1.5]), ("c16", [1j, 2 - 1j]), ("i4", [3, -2]), ("f4", [0.25, 2.0]), ("u1", [3, 2])):
+        # every numeric dtype, with coefficients near the top of its range (second derivatives still fit: factors up to 6)
+        big = {"?": [True, True], "i1": [20, -21], "i2": [5000, -5001], "i4": [35 * 10 ** 7 + 1, -35 * 10 ** 7 - 3], "i8": [2 ** 60 + 1, -2 ** 60 - 3],
+               "u1": [40, 41], "u2": [10000, 10001], "u4": [700000001, 700000003], "u8": [2 ** 53 + 1, 2 ** 61 + 1],
+               "f2": [0.5, -1.5], "f4": [0.25, 2.0], "f8": [0.5, -1.5], "c8": [1j, 2 - 1j], "c16": [1j, 2 - 1j]}
+        for dt, coefs in big.items():
             sp = spec(("q0", "q1"), (), [((3, 1), coefs[0]), ((0, 2), coefs[1])], dt)
             R.state(("dtype", dt))
-            check_poly(R, sp, f"dtype {dt}", CONFIGS[::3], seqlen=2)
+            check_poly(R, sp, f"dtype {dt}", CONFIGS[::3], seqlen=2 if dt in ("?", "f8", "c16", "i4", "f4", "u1") else 1)
+            spa = spec(("q0", "q1"), (2,), [((3, 1), [coefs[0], coefs[1]]), ((0, 2), [coefs[1], 0]), ((0, 0), [coefs[0], coefs[0]])], dt)
+            check_poly(R, spa, f"dtype {dt} array", CONFIGS[::5], seqlen=1)
+        # infinite coefficients are coefficients: in terms that contain the variable and in terms that do not
+        for i, sp in enumerate(space.nonfinite_specs()):
+            R.state(("nonfinite", i))
+            check_poly(R, sp, f"nonfinite {i}", CONFIGS[::5], seqlen=1)
     elif k == "product":
         pool = space.U0()[::13]
         names = ("q0", "q1")
